@@ -289,7 +289,13 @@ type exchCfg struct {
 	nts      bool // client with NTS enabled (key exchange data preloaded through the ntske hook)
 	spao     bool // SCION: Auth.Enabled with a DRKey fetcher that has no daemon (no key becomes available)
 	spaoKey  bool // SCION: Auth.Enabled with a DRKey fetcher on a fake daemon connector: the host-host key is available
+	zone     string // zone of the client's local address ("lo": hardware timestamping requested on loopback, so
+	// the kernel delivers neither transmit nor receive timestamps and the client falls back to clock readings)
+	nowAll   bool // setNow's values script ALL clock readings of the exchange in order (else the first only)
 }
+
+// liveZone: zone of the local address the live clients are called with (set per exchange).
+var liveZone string
 
 // script decides, after seeing the request, which datagrams go back in which order.
 type script func(ri *reqInfo) (out []dgram, theta int64, S int64, genuineIL bool)
@@ -311,6 +317,8 @@ type exchResult struct {
 	deadlineAt time.Time
 	tr         string // "ip" | "scion"
 	hdr        string // transport-specific key=value tokens of the cli.exch op
+	rd         []int64 // every reading of the process clock during the call, in order
+	recvAt     int64   // the peer's clock reading right after it received the request
 }
 
 type callRes struct {
@@ -385,7 +393,7 @@ func (l ipLive) configure(cfg exchCfg, f *recFilter) {
 func (l ipLive) getPrev() client.VerifC03Prev  { return client.VerifC03PrevIP(l.c) }
 func (l ipLive) setPrev(p client.VerifC03Prev) { client.VerifC03SetPrevIP(l.c, p) }
 func (l ipLive) measure(ctx context.Context) (time.Time, time.Duration, error) {
-	la := &net.UDPAddr{IP: net.IPv4(127, 0, 0, 1).To4()}
+	la := &net.UDPAddr{IP: net.IPv4(127, 0, 0, 1).To4(), Zone: liveZone}
 	ra := net.UDPAddrFromAddrPort(thePeer.addr)
 	return client.VerifC03MeasureIP(ctx, l.c, la, ra)
 }
@@ -465,6 +473,8 @@ func exchange(c *lib.Ctx, lc liveClient, cfg exchCfg, sc script) (res exchResult
 		}
 	}
 	clk.reset(ov...)
+	liveZone = cfg.zone
+	defer func() { liveZone = "" }()
 	ctx := context.Background()
 	cancel := func() {}
 	if cfg.deadline != 0 {
@@ -483,6 +493,7 @@ func exchange(c *lib.Ctx, lc liveClient, cfg exchCfg, sc script) (res exchResult
 		return
 	}
 	R := wallNow().UnixNano()
+	res.recvAt = R
 	res.ri = lc.parse(buf[:n])
 	res.ri.from = from
 	res.ri.R = R
@@ -516,6 +527,9 @@ func exchange(c *lib.Ctx, lc liveClient, cfg exchCfg, sc script) (res exchResult
 		return
 	}
 	res.now0 = rd[0].UnixNano()
+	for _, t := range rd {
+		res.rd = append(res.rd, t.UnixNano())
+	}
 	if cfg.deadline != 0 && !sentAt.Before(res.deadlineAt.Add(-3*time.Millisecond)) {
 		// the peer was too slow for this deadline: the client may have timed out before the
 		// datagrams arrived; the recorded order would not be what the socket delivered
